@@ -18,3 +18,19 @@ chk('C09',
     "Bounded model checking of the failure paths (syntax_error, unexpected_char, loop exits) on real canonical-LR(1) tables: for every byte string of the stated length, empty optional iff not in the language, and the message list written to a recording stream equals the reference (kind, line, column, offending term or byte); a successful non-verbose parse writes nothing.",
     "Grammar family finite; the pieces streamed are observed, std::ostream formatting is outside; skip_whitespace/skip_newline on.",
     "CBMC bounded model checking of clang-lowered driver vs reference LR(1) error detection", "DESIGN.md 5/C09")
+chk('C05',
+    "Fully symbolic kernels: solve_conflict for all 32-bit rule/term precedences, associativities and indices, and calculate_rule_last_term/precedence/associativity for arbitrary right sides <= 4 symbols and an arbitrary explicit [n], against the property's rule; plus bounded model checking of the real parser on ambiguous operator grammars with declarations: for every byte string the tree-shape hash equals the reference LR(1) parser with the documented S/R resolution.",
+    "G-prec family of 10 declaration sets (+ seeded random S/R grammars in thorough); inputs up to the stated length; known finding: rule[0] is indistinguishable from 'no explicit precedence'.",
+    "CBMC: symbolic kernels + bounded model checking of clang-lowered parser vs reference", "DESIGN.md 5/C05")
+chk('C16',
+    "Bounded model checking of one harness that parses the same symbolic bytes twice with the real code - utils::no_stream with verbose off, and a recording stream with verbose on: optional, value and functor calls must agree, and the verbose event log (recognised terms, shifts, reductions with rule numbers, gotos, recovery events, non-verbose messages among them) must equal the reference action sequence.",
+    "Grammar family finite; inputs up to the stated length; event log compared through a rolling add/rotate hash (a collision can hide but never raise an alarm) plus printed state numbers up to a bijection; repeated 'Recognized <eof>' lines are not compared; std::ostream itself is not encoded.",
+    "CBMC bounded model checking, two instantiations of the real driver vs reference action trace", "DESIGN.md 5/C16")
+chk('C13',
+    "Bounded model checking of context_parse / value_reductors::invoke / reduce_value_impl for four context categories (T&, const T&, T by value, move-only T&&) on grammars mixing >= and >>= functors: each >>= call checks address and tag of the context against the caller's object and counts; the caller must see one increment per >>= reduction of the reference; a fifth instantiation compares parse and context_parse on a context-ignoring grammar.",
+    "Grammar family finite; inputs up to the stated length; contexts are small structs (counter, tag); tag symbolic (8 bits).",
+    "CBMC bounded model checking of clang-lowered context forwarding vs reference reduction sequence", "DESIGN.md 5/C13")
+chk('C18',
+    "Bounded model checking of the custom-lexer branch of get_current_term and the driver with a nondeterministic lexer stub: input bytes and the lexer's (index, length) answers per offset are solver variables constrained only by the documented contract; asked-offset hash and call count, consumed lengths, lexeme slices seen by term functors, Unexpected-character handling, acceptance, values, positions and (on error-rule grammars) recovery equal the reference interpreter fed the same answers.",
+    "Grammar family finite; inputs up to the stated length; the library's own regex_lexer client is covered by C17.",
+    "CBMC bounded model checking with nondeterministic lexer stub vs reference interpreter", "DESIGN.md 5/C18")
